@@ -140,6 +140,9 @@ class HttpProxyPlugin(HttpProtocolHandlerPlugin):
         self.response: HttpParser = HttpParser(httpParserTypes.RESPONSE_PARSER)
         self.pipeline_request: Optional[HttpParser] = None
         self.pipeline_response: Optional[HttpParser] = None
+        # Requests sent to upstream / responses received completely
+        self.requests_forwarded: int = 0
+        self.responses_completed: int = 0
 
         self.plugins: Dict[str, HttpProxyBasePlugin] = {}
         if b'HttpProxyBasePlugin' in self.flags.plugins:
@@ -291,6 +294,8 @@ class HttpProxyPlugin(HttpProtocolHandlerPlugin):
                         self.handle_pipeline_response(raw)
                     else:
                         self.response.parse(raw)
+                        if self.response.is_complete:
+                            self.responses_completed += 1
                         self.emit_response_events(len(raw))
                 else:
                     self.response.total_size += len(raw)
@@ -470,6 +475,8 @@ class HttpProxyPlugin(HttpProtocolHandlerPlugin):
                             return
                         self.pipeline_request = r
                     assert self.pipeline_request is not None
+                    if not self.request.is_https_tunnel:
+                        self._switch_upstream_if_needed(self.pipeline_request)
                     disable_headers = None
                     if not self.request.is_https_tunnel:
                         # Follow-up http proxy requests are rewritten like
@@ -494,6 +501,7 @@ class HttpProxyPlugin(HttpProtocolHandlerPlugin):
                             ),
                         ),
                     )
+                    self.requests_forwarded += 1
                     if not self.pipeline_request.is_connection_upgrade:
                         self.pipeline_request = None
                     if rest is not None and len(rest) > 0:
@@ -585,7 +593,37 @@ class HttpProxyPlugin(HttpProtocolHandlerPlugin):
                         ),
                     ),
                 )
+                self.requests_forwarded += 1
         return False
+
+    def _switch_upstream_if_needed(self, request: HttpParser) -> None:
+        """A follow-up request on a kept-alive client connection may name
+        another origin than the request before it.  Once the previous
+        response has been relayed completely, such a request is sent over
+        a connection to the origin it names."""
+        assert self.upstream is not None
+        if request.host is None or request.port is None or (
+                request.host == self.request.host and
+                request.port == self.request.port
+        ):
+            return
+        if self.requests_forwarded > self.responses_completed:
+            # A response is still outstanding on the current connection
+            return
+        previous, first = self.upstream, self.request
+        self.request = request
+        try:
+            self.connect_upstream()
+        finally:
+            self.request = first
+        self.request.host, self.request.port = request.host, request.port
+        if self.flags.enable_conn_pool:
+            assert self.upstream_conn_pool
+            with self.lock:
+                self.upstream_conn_pool.release(previous)
+        elif not previous.closed:
+            previous.close()
+        self.response = HttpParser(httpParserTypes.RESPONSE_PARSER)
 
     def handle_pipeline_response(self, raw: memoryview) -> None:
         # Bytes received past the end of the previous response
@@ -603,6 +641,7 @@ class HttpProxyPlugin(HttpProtocolHandlerPlugin):
                 break
             raw = self.pipeline_response.buffer or memoryview(b'')
             self.pipeline_response = None
+            self.responses_completed += 1
 
     def connect_upstream(self) -> None:
         host, port = self.request.host, self.request.port
